@@ -611,7 +611,38 @@ fn source_literals() -> Vec<u32> {
     out.into_iter().collect()
 }
 
+/// Frozen, independent PFNC reference (harness/data/pfnc.txt = lean/CamVerif/Spec/PFNC.lean).
+fn pfnc() -> &'static std::collections::HashMap<u32, &'static str> {
+    static T: std::sync::OnceLock<std::collections::HashMap<u32, &'static str>> = std::sync::OnceLock::new();
+    T.get_or_init(|| {
+        include_str!("../../data/pfnc.txt")
+            .lines()
+            .filter(|l| !l.starts_with('#') && !l.trim().is_empty())
+            .map(|l| {
+                let mut it = l.split_whitespace();
+                let name = it.next().unwrap();
+                let code = u32::from_str_radix(it.next().unwrap().trim_start_matches("0x"), 16).unwrap();
+                (code, name)
+            })
+            .collect()
+    })
+}
+
 fn do_pf(rep: &mut Report, code: u32, src: &str) {
+    // independent PFNC oracle: a code is accepted iff the reference knows it, as that format
+    {
+        let got = catch(|| PixelFormat::try_from(code).ok().map(|f| format!("{f:?}")));
+        let want = pfnc().get(&code).map(|s| s.to_string());
+        if let Ok(got) = got {
+            if got != want {
+                rep.violation(
+                    json!({"kind": "pixel-format", "class": "not-pfnc"}),
+                    &format!("code {code:#010x}: implementation decodes {got:?}, the PFNC reference says {want:?}"),
+                    json!({"op": "pf", "code": code}),
+                );
+            }
+        }
+    }
     let r = catch(|| PixelFormat::try_from(code).ok().map(|f| (f, u32::from(f))));
     rep.count(&format!("pf/{src}"));
     let ans = match &r {
@@ -1045,7 +1076,14 @@ fn main() {
         rep.sample(json!({"request": "c11 pfsum", "impl": ans}));
         rep.expect("c11 pfsum".into(), ans);
     }
-    let codes: Vec<u32> = accepted.iter().map(|x| x.0).collect();
+    let mut codes: Vec<u32> = accepted.iter().map(|x| x.0).collect();
+    // every code of the PFNC reference is probed too (a renumbered format is then seen as rejected)
+    for c in pfnc().keys() {
+        if !codes.contains(c) {
+            codes.push(*c);
+        }
+    }
+    codes.sort();
     for c in &codes {
         do_pf(&mut rep, *c, "accepted");
         do_pf(&mut rep, c.wrapping_add(1), "neighbour");
